@@ -228,7 +228,7 @@ func parseComponent(r *hx.Run) {
 	rng := r.Rng
 	scale := 1
 	if r.Tier == "thorough" {
-		scale = 12
+		scale = 120
 	}
 	emit := func(tag, family, s, obs string, extra ...string) {
 		verdict := "refused"
